@@ -197,6 +197,9 @@ type UnitSpec struct {
 	// CallHook replaces calls by callee contracts while this unit runs.
 	CallHook func(p *sx.Path, fn *ssa.Function, args []sx.Val, site ssa.Instruction) (sx.Val, bool)
 	Replay func(o *vc.Outcome) string
+	// OnlyTags, when set, selects the ensures clauses (by tag) asserted by
+	// this unit; the others belong to another property's check.
+	OnlyTags func(tag string) bool
 }
 
 // Unit builds the vc.Unit.
@@ -325,7 +328,17 @@ func (us *UnitSpec) Unit() *vc.Unit {
 				if tag == "" {
 					tag = fmt.Sprintf("%d", k+1)
 				}
-				p.Assert(fmt.Sprintf("%s/ensures/%s", fname, tag), "post", ev.Goal(e.Expr), fmt.Sprintf("%s:%d", relFile(ct.File), e.Line), "ensures "+e.Text)
+				if us.OnlyTags != nil && !us.OnlyTags(tag) {
+					continue
+				}
+				delete(p.Ghost, "detail")
+				goal := ev.Goal(e.Expr)
+				note := "ensures " + e.Text
+				if d, ok := p.Ghost["detail"].(string); ok && d != "" {
+					note += " -- " + d
+					delete(p.Ghost, "detail")
+				}
+				p.Assert(fmt.Sprintf("%s/ensures/%s", fname, tag), "post", goal, fmt.Sprintf("%s:%d", relFile(ct.File), e.Line), note)
 			}
 			return result
 		})
